@@ -71,6 +71,30 @@ def tasks_for(prop, REG):
     return out
 
 
+def _maybe_fallback(out, repo, c, variant, concrete, tree, timeout_ms):
+    """engine out of reach on a bounded task of a supported function: evaluate the same contract as a run-time monitor on
+    the real code over random concrete inputs (bounded stand-in)"""
+    from checks import rt_fallback
+    if concrete is None or not out.get("limit") or c.qualname not in rt_fallback.SUPPORTED:
+        return
+    n = 40 if timeout_ms <= 20000 else 300
+    try:
+        r = rt_fallback.run_fallback(repo, c, variant, concrete, tree, n, seed=int(os.environ.get("VERIF_SEED", "0") or 0))
+    except Exception:
+        out["rt_fallback"] = {"error": traceback.format_exc()[-600:]}
+        return
+    out["rt_fallback"] = {"samples": r["samples"], "valid": r["valid"], "failed_clauses": [f["label"] for f in r["failures"]]}
+    for f in r["failures"]:
+        lab = f["label"]
+        name = f"{c.qualname}:{lab}" if lab.startswith(("frame:", "raises:")) else f"{c.qualname}:post:{lab}"
+        out["results"].append({"name": name, "kind": "post", "tags": sorted(c.tags_for(lab.replace("frame:", "")) | c.all_props()),
+                               "status": "refuted", "backend": "run-time contract on the real code", "seconds": 0.0,
+                               "reason": "clause false for a concrete input/output pair of the real function",
+                               "pathlen": 0, "cex": f["input"], "goal": lab})
+    if r["valid"] > 0:
+        out["limit_covered_by_fallback"] = True
+
+
 XCHECK_HARNESSES = {"hv_perform_action", "net_perform_action", "net_subnet_scan", "net_reset", "net_update_reachable",
                     "net_hrp", "net_tp", "net_goal", "state_get_observation", "hv_observe"}
 
@@ -98,9 +122,11 @@ def _run_task(args):
             obs, stats = verify_contract(repo, c, variant, policy=Policy(), concrete=concrete, max_paths=100000)
         except EngineLimit as e:
             out["limit"] = str(e)
+            _maybe_fallback(out, repo, c, variant, concrete, tree, timeout_ms)
             return out
         if stats.get("limits"):
             out["limit"] = "; ".join(sorted(set(stats["limits"])))
+        _maybe_fallback(out, repo, c, variant, concrete, tree, timeout_ms)
         out["stats"] = {k: (v if not isinstance(v, set) else sorted(v)) for k, v in stats.items()}
         seen_cover = set()
         cex_built = {}
@@ -209,6 +235,9 @@ def run_replay(cex, tree, path):
         json.dump(cex, f, indent=1)
     env = dict(os.environ, NASIM_TREE=tree, PYTHONPATH=tree)
     harness = cex.get("harness", "")
+    if harness.startswith("rt:"):
+        # run-time contract fallback: re-evaluate the contract on the real code for this input
+        return rt_replay(cex, tree, path)
     script = os.path.join(VERIF, "replay", "hops_replay.py" if harness == "hops" else "loader_replay.py" if harness == "loader" else
                           ("gen_replay.py" if harness.startswith("gen") else "dyn_replay.py"))
     p = subprocess.run([sys.executable, script, path], env=env, stdout=subprocess.PIPE, stderr=subprocess.STDOUT,
@@ -218,6 +247,30 @@ def run_replay(cex, tree, path):
     except Exception:
         j = {"reproduced": False, "mismatches": ["replay crashed: " + p.stdout[-500:]]}
     return j
+
+
+def rt_replay(cex, tree, path):
+    from checks import rt_fallback
+    from pyvc.source import Repo
+    import copy
+    REG = load_contracts()
+    rep = copy.deepcopy(cex)
+    rep["harness"] = rep["harness"][3:]
+    bpath = path + ".in"
+    with open(bpath, "w") as f:
+        json.dump([rep], f)
+    env = dict(os.environ, NASIM_TREE=tree, PYTHONPATH=tree)
+    p = subprocess.run([sys.executable, os.path.join(VERIF, "replay", "dyn_replay.py"), "--batch-actual", bpath], env=env,
+                       stdout=subprocess.PIPE, stderr=subprocess.STDOUT, text=True, timeout=600)
+    os.unlink(bpath)
+    try:
+        act = json.loads(p.stdout[p.stdout.index("["):])[0]
+        failed, skip = rt_fallback.evaluate(Repo(tree), REG.contracts[cex["qualname"]], cex["variant"], cex["bounded_config"],
+                                            rep["harness"], rep, act)
+    except Exception as e:
+        return {"reproduced": False, "mismatches": [f"run-time replay failed: {e}"]}
+    return {"tree": tree, "reproduced": bool(failed), "mismatches": [] if failed else ["every clause holds for this input"],
+            "failed_clauses": failed}
 
 
 class Decision:
@@ -260,7 +313,10 @@ def check_property(prop, tier="quick", tree="/repo", record=False, jobs=None, le
     for r in res:
         if r["error"]:
             D.failures.append(f"{r['qualname']}[{r['variant']}] crashed:\n{r['error']}")
-    limits = [r for r in resA if r["limit"]] + [r for r in resB if r["limit"] and not unb(r["qualname"])]
+    covered = {(r["qualname"], r["variant"]) for r in resB if r.get("limit_covered_by_fallback")}
+    limits = [r for r in resA if r["limit"] and (r["qualname"], r["variant"]) not in covered] + \
+             [r for r in resB if r["limit"] and not unb(r["qualname"]) and not r.get("limit_covered_by_fallback")]
+    D_rt = {f"{r['qualname']}[{r['variant']}]": r["rt_fallback"] for r in resB if r.get("rt_fallback")}
     # ---- aggregate mode A by obligation name
     agg = {}
     for r in resA:
@@ -389,6 +445,7 @@ def check_property(prop, tier="quick", tree="/repo", record=False, jobs=None, le
                     D.failures.append(f"engine cross-check: prediction differs from the real code for harness "
                                       f"{x.get('harness')}: {o_.get('mismatches', [])[:3]}")
     D.xcheck = xres
+    D.rt = D_rt
     # ---- vanished obligations
     if exp and not record and not D.violations:
         for name, st in exp.items():
@@ -518,6 +575,7 @@ def build_evidence(prop, tier, level, agg, bagg, resA, resB, D, bounded, wall, n
             "call_graph_used": sorted(callees),
             "known_findings_printed": [kf["what"] for kf, _ in D.known],
             "engine_crosscheck": getattr(D, "xcheck", {}),
+            "run_time_contract_fallback": getattr(D, "rt", {}),
             "undecided": [n for n, _ in D.undecided],
             "tree": tree,
             "design_ref": design_ref,
